@@ -156,7 +156,11 @@ class Exec(SpecMixin, ExprMixin, CallMixin, BuiltinMixin, StmtMixin):
   def run(self):
     c = self.contract
     modinfo = self.world.module(c.module)
-    node = modinfo.find(c.local_name)
+    if c.source:
+      import textwrap
+      node = ast.parse(textwrap.dedent(c.source)).body[0]
+    else:
+      node = modinfo.find(c.local_name)
     if node is None:
       raise SpecError('target %s not found' % c.name)
     self.node = node
